@@ -9,7 +9,7 @@ from collections.abc import Callable
 from typing import TYPE_CHECKING, Any, ClassVar, Literal, NoReturn, TypeVar, cast
 
 from peg_parser.tokenize import Token, TokenInfo, generate_tokens
-from peg_parser.tokenizer import Mark, Tokenizer
+from peg_parser.tokenizer import Mark, Tokenizer, trace
 
 if TYPE_CHECKING:
     from collections.abc import Iterator
@@ -69,11 +69,11 @@ def logger(method: F) -> F:
             return method(self, *args)
         argsr = ",".join(repr(arg) for arg in args)
         fill = "  " * self._level
-        print(f"{fill}{method_name}({argsr}) .... (looking at {self.showpeek()})")
+        trace(f"{fill}{method_name}({argsr}) .... (looking at {self.showpeek()})")
         self._level += 1
         tree = method(self, *args)
         self._level -= 1
-        print(f"{fill}... {method_name}({argsr}) --> {tree!s:.200}")
+        trace(f"{fill}... {method_name}({argsr}) --> {tree!s:.200}")
         return tree
 
     logger_wrapper.__wrapped__ = method  # type: ignore
@@ -99,18 +99,18 @@ def memoize(method: F) -> F:
             fill = "  " * self._level
         if key not in self._cache:
             if verbose:
-                print(f"{fill}{method_name}({argsr}) ... (looking at {self.showpeek()})")
+                trace(f"{fill}{method_name}({argsr}) ... (looking at {self.showpeek()})")
                 self._level += 1
             tree = method(self, *args)
             if verbose:
                 self._level -= 1
-                print(f"{fill}... {method_name}({argsr}) -> {tree!s:.200}")
+                trace(f"{fill}... {method_name}({argsr}) -> {tree!s:.200}")
             endmark = self._mark()
             self._cache[key] = tree, endmark
         else:
             tree, endmark = self._cache[key]
             if verbose:
-                print(f"{fill}{method_name}({argsr}) -> {tree!s:.200}")
+                trace(f"{fill}{method_name}({argsr}) -> {tree!s:.200}")
             self._reset(endmark)
         return tree
 
@@ -136,7 +136,7 @@ def memoize_left_rec(method: Callable[[P], T | None]) -> Callable[[P], T | None]
             fill = "  " * self._level
         if key not in self._cache:
             if verbose:
-                print(f"{fill}{method_name} ... (looking at {self.showpeek()})")
+                trace(f"{fill}{method_name} ... (looking at {self.showpeek()})")
                 self._level += 1
 
             # For left-recursive rules we manipulate the cache and
@@ -153,7 +153,7 @@ def memoize_left_rec(method: Callable[[P], T | None]) -> Callable[[P], T | None]
             lastmark = mark
             depth = 0
             if verbose:
-                print(f"{fill}Recursive {method_name} at {mark} depth {depth}")
+                trace(f"{fill}Recursive {method_name} at {mark} depth {depth}")
 
             while True:
                 self._reset(mark)
@@ -165,16 +165,16 @@ def memoize_left_rec(method: Callable[[P], T | None]) -> Callable[[P], T | None]
                 endmark = self._mark()
                 depth += 1
                 if verbose:
-                    print(
+                    trace(
                         f"{fill}Recursive {method_name} at {mark} depth {depth}: {result!s:.200} to {endmark}"
                     )
                 if not result:
                     if verbose:
-                        print(f"{fill}Fail with {lastresult!s:.200} to {lastmark}")
+                        trace(f"{fill}Fail with {lastresult!s:.200} to {lastmark}")
                     break
                 if endmark <= lastmark:
                     if verbose:
-                        print(f"{fill}Bailing with {lastresult!s:.200} to {lastmark}")
+                        trace(f"{fill}Bailing with {lastresult!s:.200} to {lastmark}")
                     break
                 self._cache[key] = lastresult, lastmark = result, endmark
 
@@ -183,7 +183,7 @@ def memoize_left_rec(method: Callable[[P], T | None]) -> Callable[[P], T | None]
 
             if verbose:
                 self._level -= 1
-                print(f"{fill}{method_name}() -> {tree!s:.200} [cached]")
+                trace(f"{fill}{method_name}() -> {tree!s:.200} [cached]")
             if tree:
                 endmark = self._mark()
             else:
@@ -193,7 +193,7 @@ def memoize_left_rec(method: Callable[[P], T | None]) -> Callable[[P], T | None]
         else:
             tree, endmark = self._cache[key]
             if verbose:
-                print(f"{fill}{method_name}() -> {tree!s:.200} [fresh]")
+                trace(f"{fill}{method_name}() -> {tree!s:.200} [fresh]")
             if tree:
                 self._reset(endmark)
         return tree
